@@ -342,6 +342,7 @@ func (s *sim) restart(n *node, bootCrash int) {
 	nr := s.or.nref(n)
 	nr.cur, nr.last = nil, nil
 	nr.lastPS = nil
+	nr.lockRound = map[int64]int{} // rebuilt from the events the WAL replay fired (they are in the log processed below)
 	nr.commitSnap = map[int64]map[int]*refVoteSet{}
 	s.or.afterRestart(n)
 	if s.stop {
